@@ -812,14 +812,22 @@ def _transform(node, callback):
 def _finalize_parse_info(text, nodes, pos, fullparse):
     line_numbers, column_numbers = _map_index_to_line_and_column(text)
 
+    def position_at(index):
+        # There is no line or column at the end of the input.
+        if index < len(line_numbers):
+            return _Position(index, line_numbers[index], column_numbers[index])
+        else:
+            return _Position(index, None, None)
+
     for node in visit(nodes):
         pos_info = node._metadata.position_info
         if pos_info:
             start, end = pos_info
-            end -= 1
+            # The end is inclusive. (An empty match ends where it starts.)
+            end = max(start, end - 1)
             node._metadata.position_info = _PositionInfo(
-                start=_Position(start, line_numbers[start], column_numbers[start]),
-                end=_Position(end, line_numbers[end], column_numbers[end]),
+                start=position_at(start),
+                end=position_at(end),
             )
 
     if fullparse and pos < len(text):
